@@ -168,13 +168,17 @@ Record mstate : Type := mkM { ms : str; mt : str; mq : str; mstk : list (str * s
 Definition opt_is (o : option N) (c : N) : bool :=
   match o with Some x => x =? c | None => false end.
 
-(* while ( *t != 0 && (slash || *t != '/')) { if ( *s == *t) push; ++t; } *)
+(* const char next = *s; const bool wild = (next == '?' || next == '*');
+   while ( *t != 0 && (slash || *t != '/')) { if (wild || next == *t) push; ++t; } *)
+Definition next_wild (s2 : str) : bool :=
+  match s2 with c :: _ => (c =? QM) || (c =? STAR) | [] => false end.
+
 Fixpoint star_loop (slash : bool) (s2 : str) (t : str) (stk : list (str * str)) : str * list (str * str) :=
   match t with
   | [] => (t, stk)
   | c :: t' =>
       if slash || negb (c =? SL)
-      then star_loop slash s2 t' (if opt_is (hd_error s2) c then (s2, t) :: stk else stk)
+      then star_loop slash s2 t' (if next_wild s2 || opt_is (hd_error s2) c then (s2, t) :: stk else stk)
       else (t, stk)
   end.
 
@@ -336,24 +340,6 @@ Definition rsearch (real : bool) (p t : str) : bool := rmatch real p t || rrest 
 Definition pathmatch_spec_iter_b (pattern path base : str) (isdir : bool) : bool :=
   negb (is_nil pattern) &&
   rsearch (is_real pattern) (iter_pattern pattern base) (path_seen pattern path base isdir).
-
-(* the class of patterns on which the loop is complete: after a '*' / '**'
-   the next pattern character (in reading order, i.e. the character BEFORE the
-   star in the pattern text) is a literal or the pattern start *)
-Definition lit_or_end (s : str) : bool :=
-  match s with [] => true | c :: _ => negb ((c =? STAR) || (c =? QM)) end.
-
-Fixpoint star_ok (s : str) : bool :=
-  match s with
-  | [] => true
-  | c :: s1 =>
-      if c =? STAR then
-        match s1 with
-        | c1 :: s2 => if c1 =? STAR then lit_or_end s2 && star_ok s2 else lit_or_end s1 && star_ok s1
-        | [] => true
-        end
-      else star_ok s1
-  end.
 
 (* ------------------------------------------------------------------ *)
 (* Canonical form, declaratively: split into components, drop "" and ".",
